@@ -1159,6 +1159,9 @@ func main() {
 		}
 		return
 	}
+	if len(os.Args) == 3 && os.Args[1] == "-prog" {
+		os.Exit(progMain(os.Args[2]))
+	}
 	if len(os.Args) < 2 {
 		fmt.Fprintln(os.Stderr, "usage: go2coq spec-file")
 		os.Exit(2)
